@@ -20,6 +20,7 @@
   byte-for-byte output) of the check.
 -/
 import TshVerif.Lemmas.Quote
+import TshVerif.Sem.BashRead
 namespace Tsh.C08
 open Tsh Tsh.Bash
 
@@ -86,5 +87,41 @@ theorem literal_with_dollar_is_expanded (s : String) (rest : List Char) (h : pla
 /-! non-vacuity -/
 #guard plainString "a \"quoted\" \\ back*slash -n ~ 'x'\n\t"
 #guard !plainString "a$HOME"
+
+
+/-! ### `input`: the line that reads standard input (round 15: C08-H dropped `IFS=` from the prompt form) -/
+
+/-- how bash reads the structured line `readIn`: `IFS= read -r [-p "prompt"] name` - empty IFS, raw, one name (the rendering below
+    is the text; the prompt goes to the terminal, not into the value) -/
+def readCmdOf : Line → Option BashRead.ReadCmd
+  | .readIn _ h => some { ifs := [], raw := true, name := h }
+  | _ => none
+
+/-- **`input()` and `input(prompt)` emit ONE line form**, `IFS= read -r`, for every prompt and in every converter state; the value is a
+    fresh helper variable -/
+theorem input_line (prompt : String) (s : St) :
+    inputOp prompt s = .ok (varEvalString s s!"_h{s.varCounter}" false,
+      { s with varCounter := s.varCounter + 1,
+               code := .readIn (promptArg prompt) (varName s s!"_h{s.varCounter}" false) :: s.code }) := by
+  simp [inputOp, bind, nextHelperVar, varEvaluation, Tr.get, addLine, Tr.modify, pure, varEvalString, varName, inFunction]
+
+theorem input_line_text (p h : String) : Line.render (.readIn p h) = "IFS= read -r" ++ p ++ " " ++ h := rfl
+
+/-- the prompt form differs from the plain form only by ` -p "<prompt>"` between `-r` and the name -/
+theorem input_prompt_text (prompt : String) :
+    promptArg prompt = if prompt.length > 0 then " -p \"" ++ prompt ++ "\"" else "" := by
+  unfold promptArg; split <;> simp_all [String.length_eq_zero_iff, toString]
+
+/-- **A line read by `input` is the line**: for every prompt (none included), every converter state and every line of standard input -
+    leading and trailing blanks and tabs, backslashes, quotes, `$` - the command of the emitted line assigns to its helper exactly
+    the line -/
+theorem input_reads_the_line_unchanged (prompt : String) (s : St) (line : List Char) :
+    ∃ v s' l c, inputOp prompt s = .ok (v, s') ∧ s'.code = l :: s.code ∧ readCmdOf l = some c ∧ c.value line = line := by
+  refine ⟨_, _, _, { ifs := [], raw := true, name := varName s s!"_h{s.varCounter}" false }, input_line prompt s, rfl, rfl, ?_⟩
+  exact BashRead.readOne_empty_ifs_raw line
+
+/-- the NEGATIVE side (what C08-H did): with bash's default IFS the same command loses leading and trailing blanks -/
+theorem default_ifs_strips_blanks :
+    BashRead.readOne BashRead.defaultIfs true " a b\t".toList = "a b".toList := by decide
 
 end Tsh.C08
